@@ -63,6 +63,14 @@ def run_common(ctx, prop_file, theorem_names):
             res["static_failures"] = json.load(open(os.path.join(cases, "static_failures.json")))
             res["panics"] = json.load(open(os.path.join(cases, "panics.json")))
             res["dump_errors"] = [l for l in open(os.path.join(cases, "dump_errors.txt")).read().splitlines() if l]
+            nv = os.path.join(cases, "negatives_verdicts.txt")
+            if os.path.exists(nv):
+                unparsed = [l.split(":")[0] for l in open(nv).read().splitlines() if l.endswith(": ParseError")]
+                for u in unparsed[:3]:
+                    ctx.violation("negative template %s is not parsed by the Sierra text parser of the tree under test "
+                                  "(it parses on the pinned tree): it can no longer be decided" % u,
+                                  {"theorem_or_correspondence": "negative templates (lib/corpus.py) / ProgramParser", "template": u},
+                                  found_input=False)
             na = os.path.join(cases, "negatives_accepted.json")
             res["negatives_accepted"] = json.load(open(na)) if os.path.exists(na) else []
             if ok_make:
